@@ -67,14 +67,19 @@ def r3_cells(rule, root=None):
     need = [
         ("corner i's (x, y, z) go to slot i of (xs, ys, zs)", "foriinCorner::<3>::iter(){let[x,y,z]=cell.corner(i);xs[i.index()]=x;ys[i.index()]=y;zs[i.index()]=z;}"),
         ("corner batch evaluated as (xs, ys, zs) through the transform", "eval.f_tape(&mutself.tape_storage),&xs,&ys,&zs,self.world_to_model,"),
-        ("bit i of the mask is set iff corner i is inside (value < 0)", "letmask=out.iter().enumerate().filter(|(_i,v)|(**v<0.0)).fold(0,|acc,(i,_v)|(acc|(1<<i)));"),
+        ("bit i of the mask is set iff corner i is inside (value < 0)", [
+            "letmask=out.iter().enumerate().filter(|($J,$V)|(**$V<0.0)).fold(0,|$A,($I,$W)|($A|(1<<$I)));",
+            "letmutmask=0;for($I,$V)inout.iter().enumerate(){if(*$V<0.0){(mask|=(1<<$I));}}",
+            "letmask=out.iter().enumerate().fold(0,|$A,($I,$V)|if(*$V<0.0){($A|(1<<$I))}else{$A});",
+        ]),
         ("no corner inside: Empty; all inside: Full", "if(mask==0){returnCell::Empty;}elseif(mask==255){returnCell::Full;}"),
     ]
     for what, frag in need:
-        if frag in t:
+        alts = frag if isinstance(frag, list) else [frag]
+        if any((f_ in t) if "$" not in f_ else (t.fmatch(f_) is not None) for f_ in alts):
             rule.ok("leaf: %s" % what, file=OCT, line=lf["ln"])
         else:
-            rule.bad("leaf|%s" % what[:24], "leaf: %s (`%s` not found)" % (what, frag[:60]), A.where(lf))
+            rule.bad("leaf|%s" % what[:24], "leaf: %s (`%s` not found)" % (what, alts[0][:60]), A.where(lf))
 
 
 def r2_merge_offsets(rule, root=None):
